@@ -278,6 +278,26 @@ def run(rep, tier):
         rep.ob("R7", dmp.qualname, "py2-target:%s-writer" % tn, okk, expected=meth_want, derived=reached[:2],
                msg="written for a Python 2 target, a %s constant goes to %s: Python 2 loads %s, so the rewritten file is a different program" % (
                    tn, reached[:1], "a unicode object (u'...')" if tn == "str" else "a long (5L)"))
+    # the Python 2 machine-int writer: TYPE_INT exactly for values that fit 32 bits, TYPE_INT64 (two 32-bit halves) otherwise
+    di = Mcls.lookup("dump_int")
+    if not isinstance(di, FuncRef):
+        raise AnalysisError("anchor vanished: xdis.marsh._Marshaller.dump_int")
+    from ..sve import eval_term as _ev
+    xi = Sym("x", "int")
+    tr, out_di, sp_di = writer_trace(T, Mcls, "dump_int", xi, pyver=(2, 7))
+    firsts = [(a, g) for kind, a, g in tr if kind == "write" and a[0] in ("ascii", "bytes-literal")]
+    bad_i = []
+    for val in (-2 ** 63, -2 ** 40, -2 ** 31 - 1, -2 ** 31, -1, 0, 1, 2 ** 31 - 1, 2 ** 31, 2 ** 40, 2 ** 63 - 1):
+        try:
+            codes_ = [a[1] for a, g in firsts if all(_ev(c, {repr(xi): val}) for c in g)]
+        except Exception as ex:
+            bad_i.append("not evaluable: %s" % ex)
+            break
+        want_c = "i" if -2 ** 31 <= val < 2 ** 31 else "I"
+        if codes_[:1] != [want_c]:
+            bad_i.append("%d -> %s (expected %r)" % (val, codes_[:1], want_c))
+    rep.ob("R7", di.qualname, "py2-target:int-width", not bad_i, expected="'i' for -2**31 <= x < 2**31, 'I' otherwise", derived=bad_i[:4] or "11 boundary values agree",
+           msg="a Python 2 machine int is written with the wrong width: %s (a 4-byte TYPE_INT keeps only the low 32 bits)" % "; ".join(bad_i[:3]))
     # ---------------------------------------------------------------- R5 the reader (shared engine with C01 / C10)
     from ..report import SubReport, merge_sub
     from . import c01
